@@ -68,20 +68,29 @@ def main():
         # optional test-only manifest addition described in demo.md ("Append to <crate>/Cargo.toml")
         cm = re.search(r"[Aa]ppend to [`<>\w/]*?((?:[\w\-]+/)*Cargo\.toml)", md)
         if cm:
-            block, take = [], False
+            block, take, fenced = [], False, False
             for line in md.splitlines():
-                if cm.group(1) in line:
+                if not take and cm.group(1) in line:
                     take = True
                     continue
                 if take:
-                    if line.startswith("    ") or line.startswith("\t"):
-                        block.append(line.strip())
-                    elif line.strip() == "" and not block:
+                    if line.strip().startswith("```"):
+                        if fenced:
+                            break
+                        fenced = True
                         continue
-                    elif line.strip() == "" and block:
+                    if fenced:
+                        if line.strip():
+                            block.append(line.strip())
+                    elif line.startswith("    ") or line.startswith("\t"):
+                        block.append(line.strip())
+                    elif line.strip() == "":
                         continue
                     elif block:
                         break
+                    elif not line.startswith(" "):
+                        # prose between the mention and the block: allow a few lines
+                        continue
             if block:
                 with open(f"{CF}/repo/{cm.group(1)}", "a") as f:
                     f.write("\n" + "\n".join(block) + "\n")
